@@ -577,9 +577,47 @@ func c29(c *core.Ctx) {
 			// the plain constructor must sit on the branch that is not (isNewFile && swampName != "")
 			fl := core.NewFlow(p, info, s.Caller.Decl.Body)
 			if loc, found := fl.Locate(s.Call); found {
+				// bool locals set to true only where os.IsNotExist reported the file missing
+				missingFlag := map[types.Object]bool{}
+				ast.Inspect(s.Caller.Decl.Body, func(x ast.Node) bool {
+					is, isIf := x.(*ast.IfStmt)
+					if !isIf {
+						return true
+					}
+					notExist := false
+					core.Calls(is.Cond, false, func(c2 *ast.CallExpr) {
+						if core.IsCallTo(info, c2, "os.IsNotExist") {
+							notExist = true
+						}
+					})
+					if !notExist {
+						return true
+					}
+					for _, st := range is.Body.List {
+						if as, isAs := st.(*ast.AssignStmt); isAs && len(as.Lhs) == 1 && len(as.Rhs) == 1 {
+							if v, isB := core.BoolLit(info, as.Rhs[0]); isB && v {
+								missingFlag[core.ObjOf(info, as.Lhs[0])] = true
+							}
+						}
+					}
+					return true
+				})
+				nameF := core.StructFields(mustStruct(p, pkgChron, "chroniclerV2"))["swampName"]
 				for _, cnd := range fl.CondsAt(loc) {
-					txt := core.ExprStr(cnd.Expr)
-					if !cnd.Truth && strings.Contains(txt, "isNewFile") && strings.Contains(txt, "swampName") {
+					if cnd.Truth {
+						continue
+					}
+					hasFlag, hasName := false, false
+					ast.Inspect(cnd.Expr, func(y ast.Node) bool {
+						if id, isId := y.(*ast.Ident); isId && missingFlag[info.Uses[id]] {
+							hasFlag = true
+						}
+						if sel, isSel := y.(*ast.SelectorExpr); isSel && nameF != nil && core.FieldOf(info, sel) == nameF {
+							hasName = true
+						}
+						return true
+					})
+					if hasFlag && hasName {
 						ok = true
 					}
 				}
